@@ -338,7 +338,18 @@ func vreFromXML(doc *etree.Element, listKeys map[string][]string, withNs, useRem
 					}
 					kv[k] = ke.Text()
 				}
-				// keys first, in key-statement order, is checked by the key-completion adapter
+				// the keys come first, in key-statement order (RFC 7950 7.8.5)
+				ce := c.ChildElements()
+				for i, k := range keys {
+					if i >= len(ce) || ce[i].Tag != k {
+						got := []string{}
+						for _, x := range ce {
+							got = append(got, x.Tag)
+						}
+						d.errs = append(d.errs, fmt.Sprintf("keys_first: entry of list %s: child elements are %v, the keys %v have to come first, in this order", cip, got, keys))
+						break
+					}
+				}
 				return ip + "/" + vreElem(name, kv)
 			}
 			if space, op, has := vreOperation(c); has && op == "replace" {
@@ -551,7 +562,7 @@ func vreSchema2(t *testing.T, mockCtrl *gomock.Controller) *mockschemaclientboun
 
 // vreRun builds the tree of one transaction (stored intent marked for removal, new revision, running = stored) and
 // compares the renderings.
-func vreRun(t *testing.T, ctx context.Context, scb *mockschemaclientbound.MockSchemaClientBound, existing, revision, others []*sdcpb.Update, label string, report func(fn, clause, in, why string), nJ, nX, nP *int) {
+func vreRun(t *testing.T, ctx context.Context, scb *mockschemaclientbound.MockSchemaClientBound, existing, revision, others, deviceOnly []*sdcpb.Update, label string, report func(fn, clause, in, why string), nJ, nX, nP *int) {
 	fnJ, fnX, fnP := "(*tree.sharedEntryAttributes).toJsonInternal", "(*tree.sharedEntryAttributes).toXmlInternal", "(*tree.RootEntry).ToProtoUpdates"
 	mockCtrl := gomock.NewController(t)
 	defer mockCtrl.Finish()
@@ -572,6 +583,10 @@ func vreRun(t *testing.T, ctx context.Context, scb *mockschemaclientbound.MockSc
 		t.Fatal(err)
 	}
 	if err := vreAdd(ctx, root, existing, fExisting, RunningIntentName, RunningValuesPrio); err != nil {
+		t.Fatal(err)
+	}
+	// what only the device holds
+	if err := vreAdd(ctx, root, deviceOnly, fExisting, RunningIntentName, RunningValuesPrio); err != nil {
 		t.Fatal(err)
 	}
 	// what another, stronger intent holds
@@ -704,7 +719,7 @@ func TestVerifReplayEncodings(t *testing.T) {
 		if err != nil {
 			t.Fatal(err)
 		}
-		vreRun(t, ctx, scb, existing, revision, nil, "edits="+strings.Join(names, "+"), report, &nJ, &nX, &nP)
+		vreRun(t, ctx, scb, existing, revision, nil, nil, "edits="+strings.Join(names, "+"), report, &nJ, &nX, &nP)
 		mockCtrl.Finish()
 	}
 	// a stronger intent of another owner holds case1 of the choice: the case the revision switches to loses and is not configured
@@ -730,7 +745,39 @@ func TestVerifReplayEncodings(t *testing.T) {
 		if err != nil {
 			t.Fatal(err)
 		}
-		vreRun(t, ctx, scb, existing, revision, others, "edits=switch-choice-case,another stronger intent holds the former case", report, &nJ, &nX, &nP)
+		vreRun(t, ctx, scb, existing, revision, others, nil, "edits=switch-choice-case,another stronger intent holds the former case", report, &nJ, &nX, &nP)
+		mockCtrl.Finish()
+	}
+	// the intent holds a list entry by its key only, the device additionally runs a leaf of its own in that entry; the
+	// revision gives the entry up
+	{
+		ctx := context.Background()
+		mockCtrl := gomock.NewController(t)
+		scb, err := testhelper.GetSchemaClientBound(t, mockCtrl)
+		if err != nil {
+			t.Fatal(err)
+		}
+		converter := utils.NewConverter(scb)
+		withEntry := vreBase()
+		withEntry.Interface["ethernet-1/7"] = &sdcio_schema.SdcioModel_Interface{Name: ygot.String("ethernet-1/7")}
+		withEntry.Doublekey[sdcio_schema.SdcioModel_Doublekey_Key{Key1: "k2.1", Key2: "k2.2"}] = &sdcio_schema.SdcioModel_Doublekey{Key1: ygot.String("k2.1"), Key2: ygot.String("k2.2")}
+		existing, err := vreExpand(ctx, withEntry, converter)
+		if err != nil {
+			t.Fatal(err)
+		}
+		revision, err := vreExpand(ctx, vreBase(), converter)
+		if err != nil {
+			t.Fatal(err)
+		}
+		dev := &sdcio_schema.Device{
+			Interface: map[string]*sdcio_schema.SdcioModel_Interface{"ethernet-1/7": {Name: ygot.String("ethernet-1/7"), Description: ygot.String("from the device")}},
+			Doublekey: map[sdcio_schema.SdcioModel_Doublekey_Key]*sdcio_schema.SdcioModel_Doublekey{{Key1: "k2.1", Key2: "k2.2"}: {Key1: ygot.String("k2.1"), Key2: ygot.String("k2.2"), Mandato: ygot.String("from the device")}},
+		}
+		deviceOnly, err := vreExpand(ctx, dev, converter)
+		if err != nil {
+			t.Fatal(err)
+		}
+		vreRun(t, ctx, scb, existing, revision, nil, deviceOnly, "edits=give-up-key-only-entries,the device runs a leaf of its own in them", report, &nJ, &nX, &nP)
 		mockCtrl.Finish()
 	}
 	// a second schema, for shapes the test schema does not have: presence containers that hold nothing but a defaulted
@@ -779,7 +826,7 @@ func TestVerifReplayEncodings(t *testing.T) {
 				names = append(names, n)
 			}
 		}
-		vreRun(t, ctx, scb, mk(0), mk(mask), nil, "schema=presence,edits="+strings.Join(names, "+"), report, &nJ, &nX, &nP)
+		vreRun(t, ctx, scb, mk(0), mk(mask), nil, nil, "schema=presence,edits="+strings.Join(names, "+"), report, &nJ, &nX, &nP)
 		mockCtrl.Finish()
 	}
 	fmt.Printf("REPLAY-CASES fn=%s n=%d\n", fnJ, nJ)
